@@ -20,4 +20,4 @@ Definition sv_cond_undefined : bytes := hex "756e646566696e65642d636f6e646974696
 Definition sv_is_iq_locals : list bytes := [hex "6971"].
 Definition sv_is_iq_spaces : list bytes := [hex "6a61626265723a636c69656e74"; hex "6a61626265723a736572766572"].
 Definition sv_is_iq_empty_locals : list bytes := [hex "6971"].
-Definition sv_is_iq_empty_spaces : list bytes := [hex ""; hex "6a61626265723a636c69656e74"; hex "6a61626265723a736572766572"].
+Definition sv_is_iq_empty_spaces : list bytes := [hex ""; hex "6a61626265723a636c69656e74"].
